@@ -141,8 +141,9 @@ def sampler(run, repo, f):
         tgt = norm(st.targets[0]) if isinstance(st, ast.Assign) else None
         callee = repo.resolve_local(f, 'clifford_rotate_signless')
         from ..rules.inout import stores_into
-        inplace = stores_into(callee, callee.posparams[1])
-        run.check(inplace or tgt in ('gs', 'gs[:]'), 'R16', f, st, 'the un-rotated block must be kept: the kernel returns a new array, '
+        from ..rules.inout import rebinds
+        inplace = stores_into(callee, callee.posparams[1]) and not rebinds(callee, callee.posparams[1])
+        run.check(inplace or tgt == 'gs[:]', 'R16', f, st, 'the un-rotated block must be kept: the kernel returns a new array, '
                   'which is bound to `%s`' % tgt)
 
 
@@ -178,6 +179,10 @@ def check(run):
     ft = repo.func(K.PY_U, 'front')
     conds = [norm(st.test).replace(' ', '') for st, _ in walk(ft.node) if isinstance(st, ast.If)]
     run.check(conds == ['g[2*i]!=0org[2*i+1]!=0'], 'R11.resample', ft, 'front', 'front returns the first site with x != 0 or z != 0 (found %s)' % conds)
+    # the measurement coin: fair, written at the new stabilizer after its relocation, paired with log2prob
+    from . import projk
+    fm, km = projk.guards_and_block(run, repo, K.PY_U, 'stabilizer_measure', signed=True)
+    projk.coin_and_probability(run, fm, km)
     # the diagonalisation used by the sampler mirrors every emitted generator on both tracked strings
     from .C18 import diag_kernel
     for rel in (K.PY_U, K.TC_U):
@@ -236,6 +241,8 @@ def check(run):
     run.floor('R10.undo', 4)
     run.floor('R16', 3)
     run.floor('R12.rcc', 8)
+    run.floor('R9.block', 1)
+    run.floor('R11.coin', 3)
     run.floor('R7.mirror', 6)
     run.decide('fair draw sites, 2*bit signs, commutation-flip normal form, sampler structure with live un-rotation, fresh random map '
                'per call and never cached, rcc gate patterns')
